@@ -15,6 +15,7 @@ CONSTANTS
   FDataSet = {0}
   LenSet = {5}
   CachedSet = {TRUE}
+  DmgSet = {FALSE}
   KindSet = {"ok"}
   Modes = {"tx"}
   DeliverAnyTime = FALSE
